@@ -268,6 +268,8 @@ func c34(r *core.Run) {
 	vmImplicitRefRule(r, "R7.implicitref")
 	constantKeysComplete(r, "R8.constkeys")
 	r.Floor("R8.constkeys", 5)
+	removeAbsentIsNoop(r, "R9.removeabsent")
+	r.Floor("R9.removeabsent", 2)
 }
 
 // c34Natives: R3 — for every sema.*FunctionName constant bound in both engines, the VM registers the same
